@@ -27,6 +27,36 @@ CHECKS = {
  "C07": ("exploration", "runtime monitoring: catch_unwind around the library pipeline and process-level observation of the real binary (exit status, stderr, output presence, CPU time, /proc thread-state dead-lock diagnosis); Miri on the edge corpus in thorough",
          "Liveness restated as bounded progress. ~85 hand-written edge classes x 6 languages x 2 modes through library and binary, a file-system fault tree, thousands of generated programs with hostile type forms and the mutated snapshot corpus.",
          "Watchdog 20 s wall + /proc diagnosis; unreadable files approximated by invalid UTF-8/symlink faults (sandbox runs as root). 16 recorded findings (panic sites, hang after worker panic, diagnostics without file name).", "5/C07"),
+ "C08": ("fault_enumeration", "runtime monitoring with planted faults: library outcome over the full plant product; the real binary under strace (syscall event history on the output location) plus stat before/after",
+         "Exactly one unsupported construct is planted into a supported program at every position, wrapper depth 0-5 and skip variant (546+ plants x 6 languages); a slice of the cells runs the real binary under strace with and without pre-existing output, single- and multi-file.",
+         "Trusts strace's view of open/creat/rename/unlink/truncate/mkdir/write calls; consts only for backends with const support. Two defects found and repaired (flatten in struct variants, non-literal consts).", "5/C08"),
+ "C09": ("exploration", "runtime monitoring: definition and reference names recovered by the output parsers and paired by stems; oracle = agreement, no presumed spelling",
+         "Programs of 3-10 mutually referencing types with random serde renames and prefixes; every type name used in a field, payload, generic argument, alias target, variant parent or helper reference must equal the name of the definition with the same stem.",
+         "Trusts the parsers; either spelling passes if both sides agree. Several defects repaired (generic references, Kotlin/Scala/Go definition names); Go unit enums recorded (pinned by a snapshot).", "5/C09"),
+ "C10": ("exploration", "runtime monitoring: every generated file is fed to a parser - CPython (compile + import under stub pydantic) or strict recursive-descent parsers of the declaration subset",
+         "Thousands of programs mixing every supported feature incl. Swift/Python keyword collisions, per-language overrides and all configuration shapes, plus the snapshot corpus, x 6 languages, single/multi-file.",
+         "The five hand-written parsers are the trusted base for TS/Kotlin/Swift/Scala/Go (no compilers for them exist in the image); files outside their subset count as inconclusive (observed: 0). One defect repaired (Scala stray braces), one recorded (Scala `= _`).", "5/C10"),
+ "C11": ("exploration", "runtime monitoring against the model's reference graph: definition order recovered by the parsers; exhaustive 3-node graphs + random graphs; Python import as end-to-end confirmation",
+         "All 512 edge sets on 3 items plus thousands of random graphs on 1-12 items with every reference position and wrapper; exactly-once and dependency-before-use are checked for TS, Kotlin, Swift, Go, Python.",
+         "Acyclicity decided on the model graph. Ordering defects for arrays/slices/nested generics/enum variants repaired; ordering after serde-renamed targets recorded (pinned by snapshots).", "5/C11"),
+ "C12": ("exploration", "runtime monitoring: names each backend introduces are collected from parsed output (CPython ast for Python) and checked against definitions/imports; multi-crate Swift through the real binary",
+         "Every trigger type x position x depth 0-3 (exhaustive grid) plus random deeper/combined placements; Swift CodableVoid, Scala unsigned aliases, Go imports, Kotlin serialization imports, TS helper pair, all Python names; Codable.swift in multi-file mode.",
+         "TypeScript is judged in the weak form (helpers come in pairs and test existing keys). One defect repaired (Scala shallow unsigned scan).", "5/C12"),
+ "C14": ("exploration", "runtime monitoring of the real binary in --output-folder mode against the model's crate partition, a single-file twin run and import resolution from model edges",
+         "Generated workspaces of 1-5 crates with files at depth 1-4, every `use`/path form, renamed types, prefixes, mappings and same-named types; file set, partition, union of definitions and TS/Kotlin imports are judged.",
+         "Scala and Go have no multi-file support and are excluded. Two defects repaired (glob imports, Kotlin import prefix), one recorded (imports of serde-renamed types).", "5/C14"),
+ "C15": ("exploration", "runtime monitoring: sentinels planted in doc strings are located in the output and classified by the language tokenisers (CPython tokenize/ast for Python) as inside/outside comments",
+         "All unit sequences of length 1-3 over {newline, */, /*, //, triple quotes, backslash, #, backtick, text} (exhaustive) plus random ones to length 12, three doc spellings, 7 documentable positions, 6 languages; the output must also keep the definitions of its doc-free twin.",
+         "Comment spans come from the harness lexers / CPython. 17 recorded findings: the terminator of each backend's comment form is not escaped.", "5/C15"),
+ "C17": ("exploration", "runtime monitoring of histories of real runs into a persistent output location: strace event log per run + (bytes, mtime_ns, inode) snapshots + fresh-run reference",
+         "All 30 histories of length <= 4 over two versions for every (language, mode) plus seeded longer histories over 2-4 versions with types added/removed/renamed/moved and () use toggled.",
+         "Stale files of vanished crates are not the last run's responsibility. One defect repaired (Codable.swift rewritten on every run).", "5/C17"),
+ "C19": ("translation_validation", "runtime monitoring of rustc itself: annotated vs stripped twins - acceptance via cargo --keep-going, -Zunpretty=expanded token comparison, serde_json behaviour",
+         "Hundreds of generated items per batch (structs, enums, unions, aliases, consts with generics, lifetimes, where-clauses, attribute mixes and every typeshare helper) as twins; negative twins must both be rejected; expanded modules compared item by item; values serialised and round-tripped through both.",
+         "Doc comments compared after syn normalisation; the stripped twin is rendered by the generator. Needs the nightly toolchain for the expansion part (inconclusive if unavailable).", "5/C19"),
+ "C20": ("exploration", "runtime monitoring of the real binary against a 3-level precedence model: output bytes must equal the library pipeline run with cli ?? file ?? default; -g judged by behaviour and by strace",
+         "The full {absent,present}^2 matrix for every dual option per language with random file-only tables and config discovery by -c / ancestor search / none; generate-config round trips for all languages and overwrite attempts under strace.",
+         "The library driver's mapping from configuration to backend structs mirrors cli/src/main.rs::language(). Scala/Go without a package are accepted as diagnosed failures.", "5/C20"),
  "C13": ("exploration", "runtime monitoring against an executable reference rule written from the property text; exhaustive enumeration of cfg expressions",
          "All cfg expressions to depth 3 (depth 4 over a reduced alphabet in thorough) x all 16 target lists x 5 attachment levels through the library, random deep expressions and multi-attribute elements, and the real binary with every documented option spelling.",
          "The evaluator (N = names under any not, P = others) is the oracle; presence is read from generated TypeScript. One defect found and repaired (comma-separated --target-os).", "5/C13"),
